@@ -20,6 +20,14 @@ Round 7 adds two case families (harness/lib_c03x.py; a case of a family carries 
                   of the batches, the shard states (different key sets) merged by ChainedRunner / TransformRunner /
                   AGGREGATE-mode runner; oracle: brute-force group-by over the whole data + equality with the unsharded
                   run; model: Model/PipeAggShard.lean (driver "pipeaggshard"), theorems C03_shards_sliced*.
+  fam = "obs"     (round 10, harness/lib_c03y.py) {sub: shape|kinds, src: {kind: mseq|seq|rr|iter, seqs}, stages, strats}: DATA-SOURCE
+                  SHAPES (SequenceDataSource.from_sequences with 2-4 sequences of equal / unequal / empty lengths x shard counts 1..5 so
+                  that thread-shard and make(shard=) boundaries fall ON / one BEFORE / one AFTER a sequence start; single sequences,
+                  ShardedIterable, plain iterables) and EVERY OBSERVABLE the aggregate can be taken from (iterator.agg_result, the
+                  returned AggregateResult's agg_result and agg_state, iterator.agg_state, merge_states of per-shard states +
+                  get_result) x state kind (tuple / number / frozen dataclass / None-or-number states returned as NEW objects, lists
+                  and MergeableMetrics mutated in place, MeanAndVariance) at every aggregating stage of 1-3 stage chains;
+                  model: Model/StrategyObs.lean (driver "strategyobs"), theorems C03_shards_merged_*, C03_chain_*.
   fam = "pool"    {items: [{sub, k, workers}]}: the same sliced pipelines through orchestrate.sharded_pipelines_as_iterator over a
                   worker pool on harness/fakecourier (harness/lib_c16x.py, run in its own process) — the C16 path of the same merge.
 """
@@ -31,11 +39,12 @@ import re
 
 from harness import lib_c03 as L
 from harness import lib_c03x as X
+from harness import lib_c03y as Y
 from harness.core import close
 
 PID = 'C03'
 TITLE = 'Results do not depend on the execution strategy'
-LEAN_MODULES = ['MlModel.Properties.C03', 'MlModel.Witness.C03']
+LEAN_MODULES = ['MlModel.Properties.C03', 'MlModel.Properties.C03Obs', 'MlModel.Witness.C03', 'MlModel.Witness.C03Obs']
 TRUSTED = [
     'threads are modelled as "any split of the input among producers, any arrival order" (Stage.Exec); the real '
     'ThreadPoolExecutor / GIL scheduling is sampled with real OS threads (num_threads 1,2,3,8), not modelled',
@@ -48,6 +57,10 @@ TRUSTED = [
     'the DequeueIterator cache (Model/DequeueCache.lean) is composed with the queue LTS through its `received` list: the '
     'boundaries of the get_batch results are a free parameter of C03_stage_runner_cached (any cut into non-empty refills); '
     'collections.deque(maxlen) semantics (extend drops from the left) is the model\'s reading of the CPython documentation',
+    'Model/StrategyObs.lean: dicts are association lists read with lookupLast (what dict(items)[k] answers); states are VALUES — an '
+    'aggregate that mutates its state in place shares the object between the dicts holding it, which the value model does not '
+    'distinguish (covered by the in-place state kinds of the obs family on the real code); the chained agg_state lists the per-stage '
+    'items without collapsing a key that two stages share (lookups agree with Python\'s dict; C03_chain_shards_merged assumes distinct keys)',
     'size-dependent behaviour: the integer constants are read off the source by harness/lib_c03x.constants() (every int '
     'literal 2..20000 of iter_utils.py, orchestrate.py, transform.py, io.py); a bound computed at run time from other data is not seen',
 ]
@@ -75,7 +88,16 @@ RULE = ('corpus (witness cases of F18 and F-C03-fuse) first; then random pipelin
         'iterator; enforced classes: key absent from the first / a middle / the last shard, disjoint key sets, empty (first) shard.  '
         'POOL (harness/lib_c16x.py, own process) — the same sliced pipelines through orchestrate.sharded_pipelines_as_iterator over a '
         'WorkerPool of 1..3 fakecourier workers, 1..6 shards (merge of a generator of states with strict_states_cnt on the master thread): '
-        '6 pipelines per quick run, exactly one AggregateResult, same oracle and model')
+        '6 pipelines per quick run, exactly one AggregateResult, same oracle and model.  Round 10 family OBS (lib_c03y): SHAPE — every tuple '
+        'of 2 and 3 sequence lengths from 0..3 (all 80), 40 random 4-tuples (thorough: all 256) and ten longer layouts, each under '
+        'num_threads 1..5, make(shard=) 1..5, data_source.shard 1..5 and the interleaved runner, four small pipelines; a single '
+        'sequence / ShardedIterable / plain iterable of 0,1,2,5,7,12 elements; enforced (generator side): for threads, shards:make and '
+        'shards:source a boundary ON a sequence start, ON the start of an empty sequence, one BEFORE, one AFTER, away from every '
+        'start and at an end of the data, and ON / BEFORE / AFTER for every (number of sequences 2,3,4) x (k 2..5).  KINDS — chains with '
+        '1, 2, 3 aggregating stages (optionally a stage without aggregates) where every one of the 7 state kinds sits at every '
+        'aggregating position (all 7 + 49 pairs + >= 40 covering triples), under threads, shards (make and source, list / generator, '
+        'plain / AGGREGATE runner) and the interleaved runner; enforced: strategy x kind x position x number of aggregating stages '
+        '(126 classes); every run takes every observable, an observable that was not taken is an oracle failure')
 
 TIMEOUT = float(os.environ.get('C03_TIMEOUT', '20'))
 
@@ -298,14 +320,14 @@ def gen_cases(ctx):
       yield case
   def fam_counted(it):
     for case in it:
-      {'sizes': X.sz_counts, 'sliced': X.sl_counts, 'pool': X.pool_counts}[case['fam']](ctx, case)
+      {'sizes': X.sz_counts, 'sliced': X.sl_counts, 'pool': X.pool_counts, 'obs': Y.ob_counts}[case['fam']](ctx, case)
       yield case
   corpus = ctx.corpus()
   yield from counted(c for c in corpus if not c.get('fam'))
   yield from fam_counted(c for c in corpus if c.get('fam'))
   yield from counted(gen_directed(ctx))
   # the families are dealt between the random cases (long streams must not sit in one chunk of the pool)
-  fams = X.gen_sliced(ctx) + X.gen_sizes(ctx)
+  fams = X.gen_sliced(ctx) + X.gen_sizes(ctx) + Y.gen_obs(ctx)
   ctx.rng.shuffle(fams)
   fams = X.gen_pool(ctx) + fams          # the worker-pool case first: its process starts early
   fams = iter(fam_counted(fams))
@@ -328,6 +350,7 @@ def extra(ctx):
           'merge_states': ['list/default', 'gen/default', 'iter/default', 'gen+strict/default', 'gen/aggregate']}
   X.deque_selfcheck(ctx)
   need.update(X.SL_REQUIRED)
+  need.update(Y.ob_required())      # generator-side classes: they do not depend on the tree under test
   need['sizes:deque-selfcheck'] = ['bounded cache smaller than a refill']
   need['sizes:longer-than-every-bound'] = ['q_iter', 'q_batch', 'interleaved', 'threads']
   need['sizes:strategy'] = ['q_iter', 'q_batch', 'interleaved', 'threads', 'q_iter:bounded', 'interleaved:bounded']
@@ -353,7 +376,7 @@ def run_fam(case):
   if case['fam'] == 'pool':
     from harness import lib_c16x
     return lib_c16x.run(case['items'], timeout=TIMEOUT)
-  o = L.child().run(case, case['strat'], TIMEOUT if _HANGS == 0 else min(TIMEOUT, 5.0))
+  o = L.child().run(case, case['strats'] if case['fam'] == 'obs' else case['strat'], TIMEOUT if _HANGS == 0 else min(TIMEOUT, 5.0))
   if o.get('hang'):
     _HANGS += 1
   return o
@@ -470,6 +493,8 @@ def failures(case, obs):
 def fam_oracle(case, o):
   if case['fam'] == 'pool':
     return X.pool_oracle(case, o)
+  if case['fam'] == 'obs':
+    return Y.ob_oracle(case, o)
   if o.get('err') == 'ChildDied':
     return f"[{case['fam']}] the process running the strategy died"
   return X.sz_oracle(case, o) if case['fam'] == 'sizes' else X.sl_oracle(case, o)
@@ -503,6 +528,8 @@ def finding(case, what):
 def fam_nontrivial(case, o):
   if case['fam'] == 'pool':
     return any((x.get('merged') or {}).get('err') is None and len((x.get('merged') or {}).get('result', [])) >= 3 for x in o)
+  if case['fam'] == 'obs':
+    return Y.ob_nontrivial(case, o)
   if case['fam'] == 'sizes':
     big = max(X.constants() or [0])
     ob = o.get('obs') or {}
@@ -535,6 +562,8 @@ def model_requests(case):
     return X.sl_model_requests(case)
   if case.get('fam') == 'pool':
     return X.pool_model_requests(case)
+  if case.get('fam') == 'obs':
+    return Y.ob_model_requests(case)
   width = 2 if case['kind'] == 'dict' else 1
   by_cuts = {}
   for st in case['strategies']:
@@ -608,6 +637,8 @@ def compare(impl_obs, mobs):
   if isinstance(mobs, dict) and mobs.get('fam'):
     if mobs['fam'] == 'pool':
       return X.pool_compare(mobs['case'], impl_obs, mobs['resps'])
+    if mobs['fam'] == 'obs':
+      return Y.ob_compare(mobs['case'], impl_obs, mobs['resps'][0])
     if impl_obs.get('err') == 'ChildDied':
       return None
     if mobs['fam'] == 'sizes':
@@ -646,7 +677,8 @@ class _RngCtx:
 
 def neighbours(case, rng):
   if case.get('fam'):
-    yield from (X.gen_sizes(_RngCtx(rng)) if case['fam'] == 'sizes' else X.gen_sliced(_RngCtx(rng)))
+    yield from (X.gen_sizes(_RngCtx(rng)) if case['fam'] == 'sizes' else
+                Y.gen_obs(_RngCtx(rng)) if case['fam'] == 'obs' else X.gen_sliced(_RngCtx(rng)))
     return
   # a disagreement in the grammar family may have its failing input in a round-7 family
   yield from X.gen_sliced(_RngCtx(rng))[:40]
@@ -672,6 +704,8 @@ def shrink(case, fails0):
 
 def _shrink_fam(case, fails0):
   cur = json.loads(json.dumps(case))
+  if case['fam'] == 'obs':
+    return Y.ob_shrink(cur, fails0)
   if case['fam'] == 'pool':
     for item in cur['items']:              # one failing item is enough
       c = dict(fam='pool', items=[item])
